@@ -181,6 +181,7 @@ func init() {
 			c.Undecided("C37: only %d explicit panic sites found under block processing, expected >=20 (frozen count)", len(sites))
 		}
 		c.Note("C37/summary", "-", itoa(len(sites))+" explicit panic sites reachable: "+itoa(nAnn)+" annotated panic:ok, "+itoa(nStore)+" on collections-layer errors, "+itoa(nAud)+" audited here")
+		c37Divisions(c, fns, reach)
 		c.NotCovered("implicit panics (nil dereference, out-of-range index, integer division by zero, failed type assertions, SDK Must*/collections panics on store errors); whether each panic:ok justification is true for all reachable states; unsigned wrap feeding a panic (C04/C18/E5 rules cover the known sites)")
 	})
 }
